@@ -88,10 +88,20 @@ type Vuln struct {
 	Sev        string `json:"sev,omitempty"` // "", "high" (9.8), "low" (1.8)
 	// Introduced2, if set, re-opens the range after Fixed: affected in [Introduced, Fixed) and in [Introduced2, forever).
 	Introduced2 string `json:"introduced2,omitempty"`
+	// More are further affected[] entries of the SAME record for the SAME package (one entry per release branch).
+	More []Entry `json:"more,omitempty"`
 	// Versions is an explicit `versions` list of the affected entry (next to the range); EntrySev puts the severity
 	// on the affected entry instead of the record's top level.
 	Versions []string `json:"versions,omitempty"`
 	EntrySev bool     `json:"entrySev,omitempty"`
+}
+
+// Entry is an additional affected[] entry of a Vuln: a range [Introduced, Fixed) (no Fixed = forever; no
+// Introduced = no range at all) and/or an explicit versions list.
+type Entry struct {
+	Introduced string   `json:"introduced,omitempty"`
+	Fixed      string   `json:"fixed,omitempty"`
+	Versions   []string `json:"versions,omitempty"`
 }
 
 // Opts are the FixVulns filter options of a case (C12); the zero value plus DevDeps=true, MaxDepth=-1 is the default.
@@ -120,7 +130,8 @@ type Case struct {
 	// by <parent><relativePath>parent.xml</relativePath>; its properties and requirements are inherited.
 	Parent *ParentPom `json:"parent,omitempty"`
 	// CfgRoute selects how UpgradeConfig builds the upgrade.Config: "" = Config.Set / SetDefault,
-	// "strings" = upgrade.NewConfigFromStrings (the route a command line takes).
+	// "strings" = upgrade.NewConfigFromStrings (the route a command line takes) with the default as a bare "level",
+	// "strings-colon" = the same with the default spelled ":level", "strings-rev" = per-package entries before the default.
 	CfgRoute string `json:"cfgRoute,omitempty"`
 	Opt      Opts   `json:"opt"`
 }
@@ -386,6 +397,17 @@ func (c *Case) OSV() []*osvschema.Vulnerability {
 			}},
 		}
 		rec.Affected[0].Versions = append([]string(nil), v.Versions...)
+		for _, e := range v.More {
+			a := osvschema.Affected{Package: osvschema.Package{Ecosystem: eco, Name: c.Full(v.Pkg)}, Versions: append([]string(nil), e.Versions...)}
+			if e.Introduced != "" {
+				evs := []osvschema.Event{{Introduced: e.Introduced}}
+				if e.Fixed != "" {
+					evs = append(evs, osvschema.Event{Fixed: e.Fixed})
+				}
+				a.Ranges = []osvschema.Range{{Type: typ, Events: evs}}
+			}
+			rec.Affected = append(rec.Affected, a)
+		}
 		var sev []osvschema.Severity
 		switch v.Sev {
 		case "high":
@@ -394,7 +416,9 @@ func (c *Case) OSV() []*osvschema.Vulnerability {
 			sev = []osvschema.Severity{{Type: osvschema.SeverityCVSSV3, Score: cvssLow}}
 		}
 		if v.EntrySev {
-			rec.Affected[0].Severity = sev
+			for i := range rec.Affected { // every entry of the record carries the severity
+				rec.Affected[i].Severity = sev
+			}
 		} else {
 			rec.Severity = sev
 		}
@@ -428,16 +452,23 @@ var levelByName = map[string]upgrade.Level{"major": upgrade.Major, "minor": upgr
 
 // UpgradeConfig builds the upgrade.Config from Cfg (short package names are mapped to registry names).
 func (c *Case) UpgradeConfig() upgrade.Config {
-	if c.CfgRoute == "strings" {
-		var ss []string
+	if strings.HasPrefix(c.CfgRoute, "strings") {
+		// "strings": default as a bare level, then pkg:level entries; "strings-colon": the default spelled ":level"
+		// (empty package name); "strings-rev": the per-package entries first, the default last.
+		var def, pkgs []string
 		for _, s := range c.Cfg {
 			if i := strings.LastIndex(s, ":"); i >= 0 {
-				ss = append(ss, c.Full(s[:i])+":"+s[i+1:])
+				pkgs = append(pkgs, c.Full(s[:i])+":"+s[i+1:])
+			} else if c.CfgRoute == "strings-colon" {
+				def = append(def, ":"+s)
 			} else {
-				ss = append(ss, s)
+				def = append(def, s)
 			}
 		}
-		return upgrade.NewConfigFromStrings(ss)
+		if c.CfgRoute == "strings-rev" {
+			return upgrade.NewConfigFromStrings(append(pkgs, def...))
+		}
+		return upgrade.NewConfigFromStrings(append(def, pkgs...))
 	}
 	cfg := upgrade.NewConfig()
 	for _, s := range c.Cfg {
